@@ -350,7 +350,17 @@ def decode_body(short, vals, meta):
 
 
 def decode_etag(short, vals, meta):
-    """etag_match_{im,inm}[_noetag]: buf:[u8;8] n:usize e:[u8;5] ne:usize"""
+    """etag_match_{im,inm}[_noetag]: buf:[u8;8] n:usize e:[u8;5] ne:usize ; etag_list_sym: buf:[u8;8] n:usize"""
+    if short == "etag_list_sym":
+        r = Reader(vals)
+        buf = read_array(r, 8)
+        n = r.usize()
+        if n > 8:
+            return None
+        # the tag list is iterated for If-None-Match (and If-Match) of any request with an ETag'd entity
+        return [{"kind": "serve", "method": "GET", "headers": [[name, buf[:n]]],
+                 "entity": {"len": 10, "etag": [0x22, 0x61, 0x22], "mtime": None, "headers": []}, "polls": 6}
+                for name in ("if-none-match", "if-match")]
     if not short.startswith("etag_match_"):
         return None
     r = Reader(vals)
